@@ -27,12 +27,18 @@ def audit_second(run):
                       {"theorem_file": "coq/props/%s.v" % SECOND, "axioms": info["axioms"], "closed": info["closed"],
                        "n_print": info.get("n_print"), "theorems": info["theorems"]}, found_input=False)
     elif run.tier == "thorough":
+        # only the two T08_T07 modules are re-checked here: their dependencies are the closure of props/T07.v (re-checked by
+        # ./check T07 --tier thorough) and of props/T08.v (re-checked by proof_stage above); a second full pass costs ~20 minutes
         rc, o, e = sh(["coqchk", "-silent", "-o", "-Q", "model", "TkModel", "-Q", "spec", "TkSpec", "-Q", "proofs", "TkProofs",
-                       "-Q", "props", "TkProps", "-Q", "corr", "TkCorr", "TkProps." + SECOND], cwd=COQ, timeout=3000)
-        flat = re.sub(r"\s+", " ", o + e)
-        if rc != 0 or "Axioms: <none>" not in flat:
+                       "-Q", "props", "TkProps", "-Q", "corr", "TkCorr",
+                       "-norec", "TkProofs.T08_T07_proofs", "-norec", "TkProps." + SECOND], cwd=COQ, timeout=3000)
+        # with -norec the admitted library modules' sealed fields are listed as axioms (Coq.ssr...): none may be ours
+        m = re.search(r"\* Axioms:(.*?)\n\s*\n", o + e, re.S)
+        listed = [l.strip() for l in (m.group(1).split("\n") if m else []) if l.strip() and l.strip() != "<none>"]
+        ours = [l for l in listed if not l.startswith("Coq.")]
+        if rc != 0 or m is None or ours:
             run.violation("coqchk rejected or reports axioms under TkProps.%s" % SECOND,
-                          {"theorem_file": "coq/props/%s.v" % SECOND, "log": (o + e)[-1500:]}, found_input=False)
+                          {"theorem_file": "coq/props/%s.v" % SECOND, "axioms": ours, "log": (o + e)[-1500:]}, found_input=False)
     return info, bool(closed_ok)
 
 
